@@ -352,6 +352,7 @@ type c06Cfg struct {
 	iterations    int
 	full          bool // true: per-iteration observables (rcase); false: returns only (scase)
 	boundaryDraws bool
+	cold          bool // temperature so low that exp(-|d|/T) underflows to 0 for every non-zero change
 	class         string
 }
 
@@ -425,7 +426,9 @@ func c06Run(rng *prng, cfg c06Cfg) {
 	var pick int
 	cool.inner.SetRandomNumberGenerator(rand.New(&c06Source{func() int64 {
 		k := int64(rng.next() >> 11) // 53 bits
-		if cfg.boundaryDraws {
+		if cfg.cold && rng.chance(0.5) {
+			k = 0 // p = 0 (exp underflows) against u = 0: the strictness of p > u decides
+		} else if cfg.boundaryDraws {
 			switch rng.intn(6) {
 			case 0:
 				k = 0
@@ -528,7 +531,22 @@ func c06Run(rng *prng, cfg c06Cfg) {
 		}
 
 		if cfg.full {
-			in := J{"a": cand, "v": c06fls(candVec), "es": c06fls(es), "k": draw, "pick": pick}
+			// the model's pick input is the position of the observed base in the archive: the property
+			// says the base is a member, not how it is selected
+			pickIn := 0
+			if rec.returned {
+				pickIn = len(archAfter) // not a member: the model will select something else
+				for i, mk := range archAfter {
+					if mk == c06MaskOfEncoding(rec.baseEncoding) {
+						pickIn = i
+						break
+					}
+				}
+				if picked && pickIn != pick {
+					c06stats["pick_differs_from_scripted_index"]++
+				}
+			}
+			in := J{"a": cand, "v": c06fls(candVec), "es": c06fls(es), "k": draw, "pick": pickIn}
 			inputs = append(inputs, in)
 			o := J{"verdict": verdictIdx, "decision": rec.decision, "cur": curAfter, "arch": archAfter,
 				"until": untilNow, "stepf": c06fl(stepNow), "last": lastAttr,
@@ -611,7 +629,7 @@ func c06Run(rng *prng, cfg c06Cfg) {
 				c06stats["undesirable_reverted"]++
 			}
 			if pr == u {
-				c06stats["p_equals_u"]++
+				c06stats["p_equals_u_"+cfg.kind]++
 			}
 		}
 		// schedule
@@ -622,7 +640,7 @@ func c06Run(rng *prng, cfg c06Cfg) {
 			if uint64(it) != lastReturn+prevCountdown || lastAttr != uint64(it) {
 				c06oracle(cfg, it, "return-to-base not exactly one countdown after the previous one", sctx)
 			}
-			if len(archAfter) == 0 || !c06contains(archAfter, c06MaskOfEncoding(rec.baseEncoding)) || !picked {
+			if len(archAfter) == 0 || !c06contains(archAfter, c06MaskOfEncoding(rec.baseEncoding)) {
 				c06oracle(cfg, it, "return-to-base with an empty solution set or to a non-member", sctx)
 			}
 			if curAfter != c06MaskOfEncoding(rec.baseEncoding) {
@@ -714,10 +732,14 @@ func runC06(args []string) {
 			for _, mn := range mins {
 				for _, f := range factors {
 					for _, k := range kinds {
-						c06Run(rng, c06Cfg{init: in, min: mn, factor: f, kind: k,
+						cfg := c06Cfg{init: in, min: mn, factor: f, kind: k,
 							t0: temps[rng.intn(len(temps))], cooling: coolings[rng.intn(len(coolings))],
 							nActs: 3 + rng.intn(6), nVars: 1 + rng.intn(3), iterations: iters, full: true,
-							boundaryDraws: rng.chance(0.5), checkND: rng.chance(0.15), class: "grid_full"})
+							boundaryDraws: rng.chance(0.5), checkND: rng.chance(0.15), class: "grid_full"}
+						if rng.chance(0.25) {
+							cfg.cold, cfg.t0, cfg.class = true, 5e-4, "grid_full_cold"
+						}
+						c06Run(rng, cfg)
 					}
 				}
 			}
@@ -737,13 +759,15 @@ func runC06(args []string) {
 			f = math.SmallestNonzeroFloat64
 		}
 		t0 := temps[rng.intn(len(temps))]
-		if rng.chance(0.15) {
-			t0 = 1e-3 // exp underflows to 0 for most changes: p = 0 boundary
+		cold := rng.chance(0.2)
+		class := "random_full"
+		if cold {
+			t0, class = 5e-4, "random_full_cold"
 		}
 		c06Run(rng, c06Cfg{init: int64(1 + rng.intn(40)), min: int64(1 + rng.intn(15)), factor: f,
 			kind: kinds[rng.intn(2)], t0: t0, cooling: coolings[rng.intn(len(coolings))],
 			nActs: 2 + rng.intn(9), nVars: 1 + rng.intn(3), iterations: iters + rng.intn(iters), full: true,
-			boundaryDraws: rng.chance(0.5), checkND: rng.chance(0.15), class: "random_full"})
+			boundaryDraws: rng.chance(0.5), checkND: rng.chance(0.15), cold: cold, class: class})
 	}
 	// (3) schedule-only runs over the whole grid, both coolants
 	for _, in := range inits {
